@@ -168,7 +168,7 @@ func TestC14StructuralFieldPolicy(t *testing.T) {
 
 func TestC14RecordRoundTrip(t *testing.T) {
 	col := stats.Get("C14.roundtrip")
-	dir, _ := os.MkdirTemp("", "c14")
+	dir := fastTempDir("c14")
 	defer os.RemoveAll(dir)
 	db := openDB(t, dir, "c14.db")
 	defer db.Close()
